@@ -60,6 +60,7 @@ type srvSc struct {
 	Filter   string   `json:"addr_filter"` // "" | nolo
 	Reqs     []srvReq `json:"reqs"`
 	Silent   bool     `json:"silent,omitempty"` // at the end the senders go silent instead of closing their streams
+	SelfAddrs bool    `json:"self_addrs,omitempty"` // the peerstore holds the node's own addresses (a public and a loopback one), as a libp2p host keeps them
 	tainted  bool     // set while running: a byte-flipped frame of unknown effect was sent; state-dependent provider clauses are off
 }
 
@@ -254,6 +255,9 @@ func runServer(t *testing.T, sc *srvSc) (res verifsim.Result) {
 	out := verifsim.Bubble(t, func() {
 		self := peer.ID(pp.IDs[sc.Self])
 		h := verifnet.NewHost(self, []ma.Multiaddr{ma.StringCast("/ip4/8.1.1.1/tcp/4001")})
+		if sc.SelfAddrs {
+			h.Peerstore().AddAddrs(self, []ma.Multiaddr{ma.StringCast("/ip4/8.1.1.1/tcp/4001"), ma.StringCast("/ip4/127.0.0.1/tcp/4001")}, time.Hour)
+		}
 		defer h.Close()
 		mode := ModeServer
 		if sc.Client {
@@ -559,7 +563,19 @@ func judgeServerResponse(res *verifsim.Result, sc *srvSc, d *IpfsDHT, step strin
 				}
 			}
 		}
-		if findNode && start == 0 && len(d.peerstore.Addrs(target)) > 0 && target != "" {
+		known := d.peerstore.Addrs(target)
+		if target == self {
+			// its own entry is an advertisement of the node's addresses: the configured address filter applies
+			known = d.filterAddrs(known)
+			if start == 1 {
+				for _, ab := range cps[0].Addrs {
+					if a, err := ma.NewMultiaddrBytes(ab); err == nil && sc.Filter == "nolo" && strings.HasPrefix(a.String(), "/ip4/127.") {
+						return fail("own-addresses-filtered", "C09/closer/self-unfiltered-address", "FIND_NODE for the node itself lists its own address %s, which the address filter rejects", a)
+					}
+				}
+			}
+		}
+		if findNode && start == 0 && len(known) > 0 && target != "" {
 			// requested peer with known addresses must come first
 			return fail("target-first", "C09/closer/target-missing", "FIND_NODE for a peer with known addresses does not list it first")
 		}
@@ -814,7 +830,7 @@ func c09ServerCheck() verifsim.Check[srvSc] {
 			sc.NoAddr = rapid.SliceOfN(rapid.IntRange(0, 24), 0, 4).Draw(t, "noAddr")
 			sc.HugeAddr = rapid.SliceOfN(rapid.IntRange(0, 24), 0, 3).Draw(t, "hugeAddr")
 			sc.Senders = []int{5100, 5101, 5102}
-			if len(sc.RT) > 0 && rapid.Bool().Draw(t, "senderInRT") {
+			if len(sc.RT) > 0 && sc.RT[0] != sc.Self && rapid.Bool().Draw(t, "senderInRT") { // (a sender is never the node itself)
 				sc.Senders[0] = sc.RT[0]
 			}
 			sc.Stored = rapid.SliceOfN(rapid.IntRange(0, 7), 0, 4).Draw(t, "stored")
@@ -828,6 +844,7 @@ func c09ServerCheck() verifsim.Check[srvSc] {
 			sc.Filter = rapid.SampledFrom([]string{"", "nolo"}).Draw(t, "filter")
 			sc.Reqs = rapid.SliceOfN(rapid.Custom(genSrvReq), 1, 6).Draw(t, "reqs")
 			sc.Silent = rapid.IntRange(0, 2).Draw(t, "silent") == 0
+			sc.SelfAddrs = rapid.Bool().Draw(t, "selfAddrs")
 			return sc
 		},
 		Run: func(t *testing.T, sc srvSc) verifsim.Result { return runServer(t, &sc) },
